@@ -37,6 +37,9 @@ def domain_of(prop):
     if prop in ("C14", "C15"):
         from . import saveload
         return saveload
+    if prop == "C20":
+        from . import det
+        return det
     if prop == "C16":
         from . import cs
         return cs
